@@ -8,13 +8,13 @@ git diff -- dd > /tmp/seed_patch_$NAME.diff
 [ -s /tmp/seed_patch_$NAME.diff ] || { echo "no change in $W"; exit 2; }
 T1=$(/venv/bin/python -m pytest -q -p no:cacheprovider --timeout=900 --continue-on-collection-errors 2>&1 | tail -1)
 rm -f bdd bdd.dot bdd.ext
-PYTHONPATH=$W /venv/bin/python demo.py > /tmp/seed_demo_changed.out 2>&1; D1=$?
+PYTHONPATH=$W /venv/bin/python demo.py > /tmp/seed_demo_changed_$NAME.out 2>&1; D1=$?
 git apply -R /tmp/seed_patch_$NAME.diff
-PYTHONPATH=$W /venv/bin/python demo.py > /tmp/seed_demo_orig.out 2>&1; D0=$?
+PYTHONPATH=$W /venv/bin/python demo.py > /tmp/seed_demo_orig_$NAME.out 2>&1; D0=$?
 git apply /tmp/seed_patch_$NAME.diff
 echo "tests with change: $T1"
 echo "demo exit: changed=$D1 unchanged=$D0"
-OUT=$(VCOPY=/tmp/vseed /verif/tools_seedcheck.sh $W $PID quick 2>&1 | grep "^VIOLATION\|^C[0-9][0-9] quick:" | tail -4)
+OUT=$(VCOPY=${VCOPY:-/tmp/vseed} /verif/tools_seedcheck.sh $W $PID quick 2>&1 | grep "^VIOLATION\|^C[0-9][0-9] quick:" | tail -4)
 echo "$OUT"
 mkdir -p /verif/seeded/$NAME
 cp /tmp/seed_patch_$NAME.diff /verif/seeded/$NAME/patch.diff
